@@ -440,3 +440,153 @@ Print Assumptions C05_fit_forced_later.
 Print Assumptions C05_fit_unforced.
 Print Assumptions C05_fit_unforced_submodel.
 Print Assumptions C05_fit_forced_esn.
+
+
+(* ================================================================================================================
+   SUB-MODEL FEEDBACK SENDERS THROUGH THE `_fb_flag` PARITY MECHANISM: model/SubSender.v on top of ProxySem (per-node flag bit flipped
+   by every successful call, the reduced sender, DistantFeedback.call_distant_node as written), tied to /repo by run/RunSubSender.v
+   (family `subsender` of tools/props/c05.py).  [in_sync s sd]: all flags of the sender's nodes agree.  [placed m sm]: every receiver
+   with a sub-model sender declares it consistently, all nodes of the sender are in the model's forward order, and the receiver is
+   called before all of them or after all of them.  [synced m sm f]: in_sync for every such sender. *)
+From RV Require Import model.SubSender proofs.SubSender_proofs.
+
+Section C05_subsender.
+Context {F : Type} `{Num F}.
+Notation vec := (list F).
+
+(* INVARIANT (a).  One complete step of Model._run, with any forced feedback, from flags in sync: the per-node part of the state evolves
+   exactly as in ProxySem (no reduced sender is ever run), the flags are in sync again, and the forward function of every node of
+   the model - sender nodes included - has been entered exactly once.  Receivers before or after their sender; any node functions. *)
+Theorem C05_submodel_in_sync_preserved (m : @model F) sm forced ext (e : @lenv F) f0 c0 :
+  NoDup (ids_of m) -> placed m sm -> synced m sm f0 ->
+  exists f c,
+    step_s m sm forced ext (mkSS e f0 c0) = (mkSS (fst (step_ll m forced ext e)) f c, snd (step_ll m forced ext e)) /\
+    (snd (step_ll m forced ext e) = true ->
+     synced m sm f /\ forall n, c n = c0 n + (if memb n (ids_of m) then 1 else 0)).
+Proof. exact (step_calm m sm forced ext e f0 c0). Qed.
+
+(* DELAY (b).  Model.run on one sequence from rest and in sync computes ModelSem's run - outputs, success flag, final states -, in which
+   every receiver is handed [fbvalue]: the states its sender's output nodes had at the end of the previous step (C05_unforced_submodel_sender,
+   pre-existing states at the first step) or the forced value; it ends at rest, and when it succeeds in sync, every node of the model
+   having been entered once per step. *)
+Theorem C05_submodel_sender_delay (m : @model F) sm steps (s : @sstate F) :
+  NoDup (ids_of m) -> placed m sm -> synced m sm (fl s) -> at_rest (le s) ->
+  let '(s', outs_s, ok_s) := run_s m sm steps s in
+  let '(e', outs, ok) := run_steps m steps (abs (le s)) in
+  outs_s = outs /\ ok_s = ok /\ Refine_proofs.R (le s') e' /\ at_rest (le s') /\
+  (ok = true -> synced m sm (fl s') /\ forall n, cn s' n = cn s n + (if memb n (ids_of m) then length steps else 0)).
+Proof. exact (run_calm m sm steps s). Qed.
+
+(* ... and the local fact: a receiver whose sender's flags agree, reached after any prefix of the step has run (and has possibly
+   overwritten the sender's `_state`), is handed what the sender's output nodes held when the step began *)
+Theorem C05_submodel_read_frozen (m : @model F) sm ext pre (d : @ndesc F) sd (s : @sstate F) (elin elmid : @lenv F) ok :
+  sm (nid d) = Some sd -> in_sync s sd -> clamp (elin (nid d)) = None ->
+  (forall o, In o (s_outs sd) -> proxy (elin o) = Some (lst (elin o)) \/ (proxy (elin o) = None /\ ~ In o (map nid pre))) ->
+  forward_from_ll m ext pre elin = (elmid, ok) -> le s = elmid ->
+  fb_seen sm d s = Some (concat (map (fun o => lst (elin o)) (s_outs sd))).
+Proof. exact (cdn_reads_frozen m sm ext pre d sd s elin elmid ok). Qed.
+
+(* STRADDLING receiver (execution order A, R, B; sender A >> B; any forward functions fr fa fb, any states).
+   A step taken in sync: R is handed B applied to A's PREVIOUS output [sa] - recomputed from B's state, not the sender's previous
+   output [sb] -, B is entered twice, and the flags end out of sync ... *)
+Theorem C05_submodel_straddling_sync_step (fr fa fb : vec -> @hidden F -> vec -> option vec -> option (vec * @hidden F))
+        x sr hr sa ha sb hb p q c0 c1 c2 sa' ha' sb1 hb1 sr' hr' sb2 hb2 :
+  fa sa ha x None = Some (sa', ha') ->
+  fb sb hb sa None = Some (sb1, hb1) ->
+  fr sr hr sa' (Some sb1) = Some (sr', hr') ->
+  fb sb1 hb1 sr' None = Some (sb2, hb2) ->
+  obs3 (step_s (m_straddle fr fa fb) (sm3 fb) nofb (ext1 x)
+          (mkSS (env3 (held sr hr) (held sa ha) (held sb hb)) (fl3 p q q) (cn3 c0 c1 c2))) =
+  (true, [held sr' hr'; held sa' ha'; held sb2 hb2], [negb p; negb q; q], [S c0; S c1; S (S c2)]).
+Proof. exact (straddle_sync_step fr fa fb x sr hr sa ha sb hb p q c0 c1 c2 sa' ha' sb1 hb1 sr' hr' sb2 hb2). Qed.
+(* ... whereas out of sync (every later step: that state is stable) R is handed the sender's previous output [sb], once each *)
+Theorem C05_submodel_straddling_antisync_step (fr fa fb : vec -> @hidden F -> vec -> option vec -> option (vec * @hidden F))
+        x sr hr sa ha sb hb p q c0 c1 c2 sa' ha' sr' hr' sb' hb' :
+  fa sa ha x None = Some (sa', ha') ->
+  fr sr hr sa' (Some sb) = Some (sr', hr') ->
+  fb sb hb sr' None = Some (sb', hb') ->
+  obs3 (step_s (m_straddle fr fa fb) (sm3 fb) nofb (ext1 x)
+          (mkSS (env3 (held sr hr) (held sa ha) (held sb hb)) (fl3 p q (negb q)) (cn3 c0 c1 c2))) =
+  (true, [held sr' hr'; held sa' ha'; held sb' hb'], [negb p; negb q; q], [S c0; S c1; S c2]).
+Proof. exact (straddle_antisync_step fr fa fb x sr hr sa ha sb hb p q c0 c1 c2 sa' ha' sr' hr' sb' hb'). Qed.
+
+(* PARTLY OUTSIDE (c) (sender A >> B with B never called by the forward pass; any forward functions and states).
+   Receiver after A (model a >> R), in sync: the reduced sender B is run ONCE on A's proxy [sa], A's output of the previous step:
+   R is handed the lazily recomputed B(sa); the flags are in sync again (so this holds at every step). *)
+Theorem C05_submodel_partly_outside_value (fr fa fb : vec -> @hidden F -> vec -> option vec -> option (vec * @hidden F))
+        x sr hr sa ha sb hb p q c0 c1 c2 sa' ha' sb' hb' sr' hr' :
+  fa sa ha x None = Some (sa', ha') ->
+  fb sb hb sa None = Some (sb', hb') ->
+  fr sr hr sa' (Some sb') = Some (sr', hr') ->
+  obs3 (step_s (m_outside_after fr fa) (sm3 fb) nofb (ext1 x)
+          (mkSS (env3 (held sr hr) (held sa ha) (bare sb hb)) (fl3 p q q) (cn3 c0 c1 c2))) =
+  (true, [held sr' hr'; held sa' ha'; bare sb' hb'], [negb p; negb q; negb q], [S c0; S c1; S c2]).
+Proof. exact (outside_after_step fr fa fb x sr hr sa ha sb hb p q c0 c1 c2 sa' ha' sb' hb' sr' hr'). Qed.
+(* Receiver before A (model R >> a): in sync (the first step) R is handed B's state as it is and B is not run; A's call leaves the
+   flags out of sync ... *)
+Theorem C05_submodel_partly_outside_before_first (fr fa fb : vec -> @hidden F -> vec -> option vec -> option (vec * @hidden F))
+        x sr hr sa ha sb hb p q c0 c1 c2 sr' hr' sa' ha' :
+  fr sr hr x (Some sb) = Some (sr', hr') ->
+  fa sa ha sr' None = Some (sa', ha') ->
+  obs3 (step_s (m_outside_before fr fa) (sm3 fb) nofb (ext0 x)
+          (mkSS (env3 (held sr hr) (held sa ha) (bare sb hb)) (fl3 p q q) (cn3 c0 c1 c2))) =
+  (true, [held sr' hr'; held sa' ha'; bare sb hb], [negb p; negb q; q], [S c0; S c1; c2]).
+Proof. exact (outside_before_sync_step fr fa fb x sr hr sa ha sb hb p q c0 c1 c2 sr' hr' sa' ha'). Qed.
+(* ... and out of sync (every later step; stable) R is handed B(sa), B run once on A's previous output *)
+Theorem C05_submodel_partly_outside_before_later (fr fa fb : vec -> @hidden F -> vec -> option vec -> option (vec * @hidden F))
+        x sr hr sa ha sb hb p q c0 c1 c2 sb' hb' sr' hr' sa' ha' :
+  fb sb hb sa None = Some (sb', hb') ->
+  fr sr hr x (Some sb') = Some (sr', hr') ->
+  fa sa ha sr' None = Some (sa', ha') ->
+  obs3 (step_s (m_outside_before fr fa) (sm3 fb) nofb (ext0 x)
+          (mkSS (env3 (held sr hr) (held sa ha) (bare sb hb)) (fl3 p q (negb q)) (cn3 c0 c1 c2))) =
+  (true, [held sr' hr'; held sa' ha'; bare sb' hb'], [negb p; negb q; q], [S c0; S c1; S c2]).
+Proof. exact (outside_before_antisync_step fr fa fb x sr hr sa ha sb hb p q c0 c1 c2 sb' hb' sr' hr' sa' ha'). Qed.
+End C05_subsender.
+
+(* (d) THE OPEN FINDINGS, inside the model.  Scenario of tools/props/c05.py `_judge_flag_parity`: model r >> a >> b, r <<= (a >> b),
+   r: x + fb/8, a and b accumulators ([fp_model], [fp_sm]); [fp_s1] is the state after a complete 3-step run of freshly built nodes.
+   There the flags are in sync, the next run's first step hands r the sender's pre-existing output and b is entered 3 times in 3 steps.
+   After ONE stand-alone call b(0) ([fp_s2]) - everything at rest - in_sync is broken, the first step of the next run hands r a value
+   DIFFERENT from the sender's pre-existing output, and b is entered 4 times by the 3-step run. *)
+Theorem C05_flag_parity_desync_refuted :
+  in_sync fp_s1 (fp_sub fpB) /\ fp_first_read fp_s1 = Some (lst (le fp_s1 2)) /\ fp_b_entries fp_s1 = 3 /\
+  fp_s2 = fst (node_call fp_sm fpB [0%Q] fp_s1) /\
+  ~ in_sync fp_s2 (fp_sub fpB) /\ rest3 fp_s2 = true /\
+  fp_first_read fp_s2 <> Some (lst (le fp_s2 2)) /\ fp_b_entries fp_s2 = 4.
+Proof. exact desync_standalone_statement. Qed.
+(* the same after a run ABORTED inside b (its forward raises after r and a were called in that step): proxies washed, flags not *)
+Theorem C05_flag_parity_desync_failed_step_refuted :
+  fp_s2' = fst (fst (run_s fp_model_boom fp_sm_boom fp_X fp_s1)) /\ snd (run_s fp_model_boom fp_sm_boom fp_X fp_s1) = false /\
+  ~ in_sync fp_s2' (fp_sub fpB) /\ rest3 fp_s2' = true /\
+  fp_first_read fp_s2' <> Some (lst (le fp_s2' 2)) /\ fp_b_entries fp_s2' = 4.
+Proof. exact desync_failed_step_statement. Qed.
+(* STRADDLING receiver, freshly built nodes, in sync (model a >> r >> b, a: identity, b: 2x + 1, r: x + 100 fb, all states zero):
+   at the first step r is handed [1] = b(a's zero state) although the sender's pre-existing output is [0]; b is entered 4 times by the
+   3-step run (inputs 1, 2, 4), which ends out of sync.  NOT the property's value: reproduced on /repo. *)
+Theorem C05_submodel_straddling_first_step_refuted :
+  in_sync st_s0 (mkSub [1; 2] [1] [2] [stB] (fun n => match n with 2 => [1] | _ => [] end)) /\ lst (le st_s0 2) = [0%Q] /\
+  fb_seen st_sm stR st_mid = Some [1%Q] /\
+  (let '(s, outs, ok) := run_s st_model st_sm st_X st_s0 in (ok, outs, cn s 2, map (fl s) [1; 2])) =
+  (true, [[[101%Q]; [1%Q]; [203%Q]]; [[20302%Q]; [2%Q]; [40605%Q]]; [[4060504%Q]; [4%Q]; [8121009%Q]]], 4, [false; true]).
+Proof. exact straddle_witness. Qed.
+
+(* non-vacuity of (a)/(b): the three-node model r >> a >> b of the findings is [placed] (r before its sender), a fresh state is
+   [synced] and at rest, ids distinct; the run through the mechanism gives r the previous outputs of b: 0, 1, 33/8 (r = x + fb/8) *)
+Example C05_submodel_example :
+  NoDup (ids_of fp_model) /\ placed fp_model fp_sm /\ synced fp_model fp_sm (fun _ => true) /\
+  (let '(_, outs, ok) := run_s fp_model fp_sm fp_X (fresh (fun _ => mkLN [0%Q] [] None None)) in (ok, outs)) =
+  (true, [[[1%Q]; [1%Q]; [1%Q]]; [[(17#8)%Q]; [(25#8)%Q]; [(33#8)%Q]]; [[(225#64)%Q]; [(425#64)%Q]; [(689#64)%Q]]]).
+Proof. exact subsender_example. Qed.
+
+Print Assumptions C05_submodel_in_sync_preserved.
+Print Assumptions C05_submodel_sender_delay.
+Print Assumptions C05_submodel_read_frozen.
+Print Assumptions C05_submodel_straddling_sync_step.
+Print Assumptions C05_submodel_straddling_antisync_step.
+Print Assumptions C05_submodel_partly_outside_value.
+Print Assumptions C05_submodel_partly_outside_before_first.
+Print Assumptions C05_submodel_partly_outside_before_later.
+Print Assumptions C05_flag_parity_desync_refuted.
+Print Assumptions C05_flag_parity_desync_failed_step_refuted.
+Print Assumptions C05_submodel_straddling_first_step_refuted.
